@@ -12,7 +12,8 @@ EXTENDS Naturals, Sequences, TLC, Json
 CONSTANT MaxLen
 Identity == { "id_count", "id_slidingcount", "id_tumbling", "id_filter", "id_seq", "id_join", "id_merge_window", "id_part_window", "id_kleene", "id_two_streams" }
 Changes == { "ch_threshold", "ch_add_where", "ch_window_size", "ch_merge_gains_input", "ch_emit_field", "ch_other_stream_only",
-             "ch_rename", "ch_remove_op", "ch_seq_step_added", "ch_seq_predicate", "ch_upstream_only" }
+             "ch_rename", "ch_remove_op", "ch_seq_step_added", "ch_seq_predicate", "ch_upstream_only",
+             "ch_src_merge_branch_filter", "ch_src_step_filter", "ch_src_step_all", "ch_src_second_type", "ch_src_join_key" }
 Ev == [type : {"A", "B", "C"}, k : 1..2, x : 0..3, dt : 0..2]
 VARIABLES cls, stream, at
 Init == cls \in Identity \cup Changes /\ stream = <<>> /\ at = 0
